@@ -13,7 +13,9 @@ namespace mpl = boost::mpl;
 namespace
 {
 struct x_go {}; struct x_in {}; struct x_back {};
-struct x_out1 {}; struct x_out2 {}; struct x_out3 {}; struct x_out4 {};
+struct x_out1 { int a = 0; }; struct x_out2 {}; struct x_out3 {}; struct x_out4 {};
+struct x_pad { long p = 0; };
+struct x_mi : x_pad, x_out1 {};      // reaches exit point E1 too: the exit event is a base at a non-zero offset
 struct x_act { template <class E, class F, class S, class T> void operator()(E const&, F&, S&, T&) {} };
 struct x_grd { template <class E, class F, class S, class T> bool operator()(E const&, F&, S&, T&) { return true; } };
 struct x_st : public msm::front::state<>
@@ -82,6 +84,41 @@ void x_use()
     x_drive<x_machines<x_back11_be_pol, false>::Top>();
     x_drive<x_machines<x_mp11_be, true>::Top>();
     x_drive<x_machines<x_mp11_fct_be, true>::Top>();
+}
+// an exit point reached by an event DERIVED from the exit point's event, the exit event being a base at a non-zero offset (the
+// forwarder of backmp11 is type-erased: it must be handed an object of exactly the exit event's type).  back and backmp11 only:
+// back11 does not compile two forwarding rows of one submachine for one event.
+template <template <class> class Back>
+struct x_derived_exit
+{
+    struct Sub_ : public msm::front::state_machine_def<Sub_>
+    {
+        struct A : x_st {};
+        struct E1 : public msm::front::exit_pseudo_state<x_out1> {};
+        typedef A initial_state;
+        struct transition_table : mpl::vector<
+            msm::front::Row<A, x_mi, E1, msm::front::none, msm::front::none>
+        > {};
+        template <class FSM, class Event> void no_transition(Event const&, FSM&, int) {}
+    };
+    typedef Back<Sub_> Sub;
+    struct Top_ : public msm::front::state_machine_def<Top_>
+    {
+        struct Done1 : x_st {};
+        typedef Sub initial_state;
+        struct transition_table : mpl::vector<
+            msm::front::Row<typename Sub::template exit_pt<typename Sub_::E1>, x_out1, Done1, msm::front::none, msm::front::none>
+        > {};
+        template <class FSM, class Event> void no_transition(Event const&, FSM&, int) {}
+    };
+    typedef Back<Top_> Top;
+};
+template <class M> void x_drive_derived() { M m; m.start(); m.process_event(x_mi()); m.stop(); }
+void x_use_derived()
+{
+    x_drive_derived<x_derived_exit<x_back_be>::Top>();
+    x_drive_derived<x_derived_exit<x_mp11_be>::Top>();
+    x_drive_derived<x_derived_exit<x_mp11_fct_be>::Top>();
 }
 }
 int main() { return 0; }
